@@ -94,7 +94,7 @@ impl SpeechGenerator {
     /// Please note that this function will not generate previously-synthesized frames again.
     pub fn generate_all(mut self) -> Vec<f64> {
         if self.next != 0 {
-            eprintln!("The speech generator has already synthesized some frames.");
+            crate::warn(format_args!("The speech generator has already synthesized some frames."));
         }
 
         let start = self.next;
